@@ -8,7 +8,10 @@
         is finding F17, repaired); Persistent / Reliable fragments are not transmitted again once
         a valid acknowledgement for a frame carrying them has been processed, nor once the
         receiver reported moving past the packet; and the sender does not give up on one (offer a
-        packet-window resynchronisation beyond it) while a fragment of it is unacknowledged.
+        packet-window resynchronisation beyond it) while a fragment of it is unacknowledged, nor
+        come to rest (report nothing pending at quiescence) while a fragment of a Persistent /
+        Reliable packet has neither been acknowledged nor been passed by the receiver ("each
+        fragment ... is retransmitted until acknowledged"), in runs without forged frames.
    C04  no emitted frame exceeds 1472 bytes.
 
    "Valid acknowledgement" is decided here, from the trace alone: an ack group is valid iff
@@ -30,9 +33,10 @@ VARIABLES
     stale,      \* set of <<uid, txNext>>: TimeSensitive uids not begun at the step after their send
     lastTxNext, \* [ep -> tx_next logged at the latest FlushEnd]
     obs,        \* counter: TimeSensitive packets first sent after the step although pulled before it
+    honest,     \* no forged frames in this run (Reset line)
     bad
 
-vars == <<l, sub, emitted, begun, acked, passed, open, frames, tsFresh, nfrag, stale, lastTxNext, obs, bad>>
+vars == <<l, sub, emitted, begun, acked, passed, open, frames, tsFresh, nfrag, stale, lastTxNext, obs, honest, bad>>
 
 Eps == {"a", "b"}
 None == [e \in Eps |-> {}]
@@ -40,7 +44,7 @@ NoFrames == [e \in Eps |-> <<>>]
 
 Init ==
     /\ l = 1 /\ sub = <<>> /\ emitted = {} /\ begun = {} /\ acked = {} /\ passed = {} /\ open = None
-    /\ frames = NoFrames /\ tsFresh = None /\ nfrag = <<>> /\ stale = {} /\ lastTxNext = [e \in Eps |-> 0] /\ obs = 0 /\ bad = {}
+    /\ frames = NoFrames /\ tsFresh = None /\ nfrag = <<>> /\ stale = {} /\ lastTxNext = [e \in Eps |-> 0] /\ obs = 0 /\ honest = FALSE /\ bad = {}
 
 Flag(p, why) == IF Cardinality(bad) < 200 THEN {<<p, why, l>>} ELSE {}
 
@@ -48,6 +52,7 @@ Reset ==
     /\ IsEvent("Reset")
     /\ sub' = <<>> /\ emitted' = {} /\ begun' = {} /\ acked' = {} /\ passed' = {} /\ open' = None
     /\ frames' = NoFrames /\ tsFresh' = None /\ nfrag' = <<>> /\ stale' = {} /\ lastTxNext' = [e \in Eps |-> 0]
+    /\ honest' = (IF "honest" \in DOMAIN Cur THEN Cur.honest ELSE FALSE)
     /\ UNCHANGED <<obs, bad>>
 
 Send ==
@@ -56,7 +61,7 @@ Send ==
     /\ sub' = Append(sub, [ep |-> Cur.ep, mode |-> Cur.mode, sn |-> Cur.sn])
     /\ nfrag' = Append(nfrag, Cur.nfrag)
     /\ tsFresh' = IF Cur.mode = "T" THEN [tsFresh EXCEPT ![Cur.ep] = @ \cup {Cur.uid}] ELSE tsFresh
-    /\ UNCHANGED <<emitted, begun, acked, passed, open, frames, stale, lastTxNext, obs, bad>>
+    /\ UNCHANGED <<emitted, begun, acked, passed, open, frames, stale, lastTxNext, obs, honest, bad>>
 
 (* step(): every TimeSensitive packet of this endpoint that has not begun is stale from now on;
    remember how far packet ids had been handed out (to tell "pulled before the step" apart). *)
@@ -65,12 +70,12 @@ Step ==
     /\ LET e == Cur.ep IN
        /\ stale' = stale \cup {<<u, lastTxNext[e]>> : u \in tsFresh[e]}
        /\ tsFresh' = [tsFresh EXCEPT ![e] = {}]
-    /\ UNCHANGED <<sub, emitted, begun, acked, passed, open, frames, nfrag, lastTxNext, obs, bad>>
+    /\ UNCHANGED <<sub, emitted, begun, acked, passed, open, frames, nfrag, lastTxNext, obs, honest, bad>>
 
 FlushEnd ==
     /\ IsEvent("FlushEnd")
     /\ lastTxNext' = [lastTxNext EXCEPT ![Cur.ep] = Cur.tx_next]
-    /\ UNCHANGED <<sub, emitted, begun, acked, passed, open, frames, tsFresh, nfrag, stale, obs, bad>>
+    /\ UNCHANGED <<sub, emitted, begun, acked, passed, open, frames, tsFresh, nfrag, stale, obs, honest, bad>>
 
 StaleLimit(u) == CHOOSE p \in stale : p[1] = u
 IsStale(u) == \E p \in stale : p[1] = u
@@ -121,7 +126,7 @@ Emit ==
                                                        /\ \E fg \in 0..(nfrag[pr[2]] - 1) : <<pr[2], fg>> \notin acked
                        THEN Flag("C12", "gave-up-on-unacknowledged-reliable-mode-fragment") ELSE {})
             /\ UNCHANGED <<obs, emitted, begun, tsFresh, open, frames>>
-    /\ UNCHANGED <<sub, acked, passed, nfrag, stale, lastTxNext>>
+    /\ UNCHANGED <<sub, acked, passed, nfrag, stale, lastTxNext, honest>>
 
 Bit(g, i) == IF i < 16 THEN (g.bits_lo \div (2 ^ i)) % 2 ELSE (g.bits_hi \div (2 ^ (i - 16))) % 2
 SetBits(g) == {i \in 0..31 : Bit(g, i) = 1}
@@ -156,17 +161,28 @@ HandleAck ==
        /\ passed' = passed \cup {p[2] : p \in gone}
        /\ open' = [open EXCEPT ![e] = @ \ gone]
        /\ frames' = [frames EXCEPT ![e] = [k \in {x \in DOMAIN F : x >= lo} |-> F[k]]]
-    /\ UNCHANGED <<sub, emitted, begun, tsFresh, nfrag, stale, lastTxNext, obs, bad>>
+    /\ UNCHANGED <<sub, emitted, begun, tsFresh, nfrag, stale, lastTxNext, obs, honest, bad>>
 
 HandleOther ==
     /\ IsEvent("Handle") /\ Cur.kind # "A"
-    /\ UNCHANGED <<sub, emitted, begun, acked, passed, open, frames, tsFresh, nfrag, stale, lastTxNext, obs, bad>>
+    /\ UNCHANGED <<sub, emitted, begun, acked, passed, open, frames, tsFresh, nfrag, stale, lastTxNext, obs, honest, bad>>
+
+(* the sender has come to rest: nothing pending, send buffer empty.  Every fragment of its Persistent / Reliable packets
+   must by then have been acknowledged (a processed valid ack for a frame carrying it) or passed by the receiver. *)
+Quiesced ==
+    /\ IsEvent("Quiesced")
+    /\ LET e == Cur.ep
+           mine == {u \in 1..Len(sub) : sub[u].ep = e /\ sub[u].mode \in {"P", "R"}}
+           left == {u \in mine : u \notin passed /\ \E fg \in 0..(nfrag[u] - 1) : <<u, fg>> \notin acked}
+       IN bad' = bad \cup (IF honest /\ Cur.reached /\ ~Cur.pending /\ Cur.bufsize = 0 /\ ("tail" \notin DOMAIN Cur \/ Cur.tail # "receiver") /\ left # {}
+                           THEN Flag("C12", "at-rest-although-a-reliable-mode-fragment-is-unacknowledged") ELSE {})
+    /\ UNCHANGED <<sub, emitted, begun, acked, passed, open, frames, tsFresh, nfrag, stale, lastTxNext, obs, honest>>
 
 Skip ==
-    /\ IsOneOf({"End", "FaultsEnd", "Net", "Probe", "Deliver", "Quiesced", "Ret", "Probes", "RecvEnd"})
-    /\ UNCHANGED <<sub, emitted, begun, acked, passed, open, frames, tsFresh, nfrag, stale, lastTxNext, obs, bad>>
+    /\ IsOneOf({"End", "FaultsEnd", "Net", "Probe", "Deliver", "Ret", "Probes", "RecvEnd"})
+    /\ UNCHANGED <<sub, emitted, begun, acked, passed, open, frames, tsFresh, nfrag, stale, lastTxNext, obs, honest, bad>>
 
-Next == Reset \/ Send \/ Step \/ FlushEnd \/ Emit \/ HandleAck \/ HandleOther \/ Skip
+Next == Reset \/ Send \/ Step \/ FlushEnd \/ Emit \/ HandleAck \/ HandleOther \/ Quiesced \/ Skip
 
 Spec == Init /\ [][Next]_vars
 
